@@ -20,7 +20,7 @@ func init() {
 			"no read of the caller's existing elements may influence the output (C16.indep); no slice that may alias the caller's buffer is stored into a package-level variable (retention across calls); no second append chain may be started in the caller's spare capacity (buf[len(buf):]) while buf itself is appended to, and no buffer-derived slice value is the destination of two appends on one path while the earlier result is still used after the later one (forked chains write the same spare capacity; a loop-carried phi is a new value per iteration); ID.URN formats onto a literal equal to URNPrefix with flag 0 (C16.urn); the formatter under FormatURN renders urn:uuid: followed by the fields of the plain layout, same widths, same lower-case hex, same operands (C16.urnflag, the layout rule of C05). " +
 			"A violation names the storing instruction and the call chain. The rules are applied to the five formatters, internal.Bprintf and every other exported function or method of a value package that takes a []byte and returns one (discovered on each run); besides the region analysis (a union over paths: the result may hold the caller's bytes) a must pass shows that on every non-failure path through the functions of the module the result is built on the buffer; package-level function variables assigned once are resolved to their function." +
 			" Added after the second rule audit: C16.entry: each package-level Formatter is initialised to DefaultFormatter and never rebound inside the module; C16.indep follows a bytes.Buffer that wraps the caller's bytes into functions of the module; URN may also be written URNPrefix + String()." +
-			" After a replaceable formatter (called through the package variable) has failed, the bytes it handed back are not used as the buffer to go on with. Since audit round 3: a shadow chain is recognised through phis and append results; tuple-returning appenders of the module are chain members; C16.indep resolves function variables assigned once; the URN receiver check covers field stores and the FormatURN shape.",
+			" After a replaceable formatter (called through the package variable) has failed, the bytes it handed back are not used as the buffer to go on with. Since audit round 3: a shadow chain is recognised through phis and append results; tuple-returning appenders of the module are chain members; C16.indep resolves function variables assigned once; the URN receiver check covers field stores, the copy's address handed to a call, and the FormatURN shape.",
 		NotDecided:  []string{"a second chain held in a bytes.Buffer over the caller's buffer (Buffer destinations are not members of the fork analysis)", "nothing value-level: this is a shape property; stdlib append/Buffer semantics are trusted summaries", "aliasing of the caller's buffer through struct fields or other heap objects (the region analysis follows slices, bytes.Buffer values and functions of the module, not arbitrary pointers)", "the rule is stronger than the clause in one direction: a formatter that first copies the caller's bytes into fresh storage, or trims a byte it has itself appended, is reported although the returned bytes are right"},
 		Assumptions: []string{"bytes.Buffer is append-only over the slice it was created from and Bytes() returns that whole slice", "append/strconv.Append* never modify existing elements"},
 		Technique:   "alias/effect (region) analysis of the buffer parameter over go/ssa: append-only derivation, suffix-only writes, no reads of the prefix, no shadow append chain",
